@@ -464,6 +464,9 @@ func (c *ctxT) check(cfg cfgT, cl call, status string, wire []byte, lines []stri
 	for i := range els {
 		if ok, why := sameElement(els[i], expEls[i]); !ok {
 			clause := "exact-element"
+			if foreignRawStanza(cfg, den) {
+				key = "raw-top-stanza/foreign-xmlns"
+			}
 			if cl.entry == "encel" || cl.entry == "replyel" || cl.entry == "sendel" {
 				if s, ok := els[i][0].(xml.StartElement); ok {
 					if e, ok := expEls[i][0].(xml.StartElement); ok && s.Name != e.Name {
@@ -476,6 +479,54 @@ func (c *ctxT) check(cfg cfgT, cl call, status string, wire []byte, lines []stri
 		}
 	}
 	return obs
+}
+
+// foreignRawStanza: the element starts with a stanza name without namespace that carries an
+// xmlns attribute naming something else than the stream's content namespace.
+func foreignRawStanza(cfg cfgT, den []xml.Token) bool {
+	if len(den) == 0 {
+		return false
+	}
+	s, ok := den[0].(xml.StartElement)
+	if !ok || s.Name.Space != "" || !isStanzaLocal(s.Name.Local) {
+		return false
+	}
+	for _, a := range s.Attr {
+		if a.Name.Space == "" && a.Name.Local == "xmlns" && a.Value != cfg.ns {
+			return true
+		}
+	}
+	return false
+}
+
+// noForeign takes the foreign xmlns attribute off a raw-spelled top-level stanza (known
+// finding raw-top-stanza/foreign-xmlns): the concurrent scenarios recognise every element on the
+// wire by what the property says it must be.
+func noForeign(cfg cfgT, cl call) call {
+	if !foreignRawStanza(cfg, cl.denoted()) {
+		return cl
+	}
+	strip := func(s xml.StartElement) xml.StartElement {
+		var as []xml.Attr
+		for _, a := range s.Attr {
+			if !(a.Name.Space == "" && a.Name.Local == "xmlns") {
+				as = append(as, a)
+			}
+		}
+		s.Attr = as
+		return s
+	}
+	if cl.start != nil {
+		st := strip(*cl.start)
+		cl.start = &st
+	}
+	if len(cl.toks) > 0 {
+		if s, ok := cl.toks[0].(xml.StartElement); ok && (cl.start == nil || cl.entry == "encel") {
+			cl.toks = append([]xml.Token(nil), cl.toks...)
+			cl.toks[0] = strip(s)
+		}
+	}
+	return cl
 }
 
 func clip(b []byte) string {
@@ -705,6 +756,7 @@ func (c *ctxT) concurrent(cfg cfgT, rnd *common.Rand, nG, nK int, caseNo int) {
 				if cl.start == nil && len(cl.toks) == 0 {
 					continue
 				}
+				cl = noForeign(cfg, cl)
 				break
 			}
 			mk := fmt.Sprintf("m-%d-%d", g, k)
@@ -729,7 +781,7 @@ func (c *ctxT) concurrent(cfg cfgT, rnd *common.Rand, nG, nK int, caseNo int) {
 				big = 3000 + rnd.Intn(9000)
 			}
 			mk := fmt.Sprintf("m-%d-%d", nG, k)
-			cl := withMarker(call{entry: "reply", form: "reader", toks: genElement(rnd, 0, true, big)}, mk)
+			cl := withMarker(noForeign(cfg, call{entry: "reply", form: "reader", toks: genElement(rnd, 0, true, big)}), mk)
 			j := job{cl: cl, mk: mk, idx: len(all)}
 			all = append(all, j)
 			replies = append(replies, j)
@@ -1062,6 +1114,7 @@ func Run(r *common.Run) error {
 		c.flushCorpus(cfg)
 		c.faultCorpus(cfg)
 		c.spellingCorpus(cfg)
+		c.rawTopCorpus(cfg)
 		c.autoReply(cfg)
 	}
 	for _, cfg := range cfgs {
@@ -1081,8 +1134,10 @@ func Run(r *common.Run) error {
 	}
 	nFault := r.Pick(150, 3000)
 	for i := 0; i < nFault; i++ {
-		toks := genElement(rnd, 0, true, 0)
-		c.fault(cfgs[rnd.Intn(2)], pickS(rnd, []string{"reader", "tw", "badtok", "badend"}), toks, 1+rnd.Intn(len(toks)-1), genElement(rnd, 0, true, 0))
+		cfg := cfgs[rnd.Intn(len(cfgs))]
+		toks := noForeign(cfg, call{entry: "send", toks: genElement(rnd, 0, true, 0)}).toks
+		next := noForeign(cfg, call{entry: "send", toks: genElement(rnd, 0, true, 0)}).toks
+		c.fault(cfg, pickS(rnd, []string{"reader", "tw", "badtok", "badend"}), toks, 1+rnd.Intn(len(toks)-1), next)
 	}
 	nConc := r.Pick(30, 300)
 	for i := 0; i < nConc; i++ {
